@@ -31,6 +31,18 @@ pub fn seed_state(id: u8) -> Memfs {
             let _ = m.write_all("/a/g", b"gg");
             let _ = m.write_all("/b", b"y");
         },
+        5 => {
+            // two directories with the same names inside, cwd in the first: a relative query has an answer before
+            // and after a cwd change, never "missing"
+            let _ = m.mkdir_p("/a/b");
+            let _ = m.write_all("/a/f", b"in-a");
+            let _ = m.mkdir_p("/d/b");
+            let _ = m.write_all("/d/f", b"in-d");
+            let _ = m.chmod("/d/f", 0o600);
+            let _ = m.chown("/a/f", 1, 2);
+            let _ = m.chown("/d/f", 3, 4);
+            let _ = m.set_cwd("/a");
+        },
         4 => {
             // different modes and owners everywhere: a query that reads its answer in two steps shows a mix
             let _ = m.mkdir_m("/a", 0o750);
@@ -673,6 +685,16 @@ pub fn run(c: &Ctx) {
         for f in crate::fsalpha::single_path_ops(p, false).into_iter().filter(|o| claimed(o) && !o.is_mutator()) {
             for (j, second) in [Op::Mkfile(s("/a/x")), Op::Remove(s("/a/f")), Op::MkdirP(s("/a/b/y")), Op::RemoveAll(s("/a/b"))].into_iter().enumerate() {
                 jobs.push((3, vec![vec![f.clone()], vec![Op::SetCwd(s("/d")), second]], j % 2 == 1, false));
+                race += 1;
+            }
+        }
+    }
+    // the same from a state where the name exists below the old and the new cwd: an answer of "missing" (or a
+    // mix) matches no order
+    for p in ["f", "b"] {
+        for f in crate::fsalpha::single_path_ops(p, false).into_iter().filter(|o| claimed(o) && !o.is_mutator()) {
+            for (j, second) in [Op::Remove(s("/a/f")), Op::RemoveAll(s("/a/b")), Op::RemoveAll(s("/a"))].into_iter().enumerate() {
+                jobs.push((5, vec![vec![f.clone()], vec![Op::SetCwd(s("/d")), second]], j % 2 == 1, false));
                 race += 1;
             }
         }
